@@ -547,8 +547,10 @@ func (s *c29Sys) afterFault(t c29TB, m *c29Model, step c29Step, fault string, ro
 		ptrNow = &u
 	}
 	same := func(a, b *int64) bool { return (a == nil && b == nil) || (a != nil && b != nil && *a == *b) }
-	moved := !same(ptrNow, m.ptr)
-	if moved && (ptrNow == nil || *ptrNow != end.Unix()) {
+	unchanged := same(ptrNow, m.ptr)
+	advanced := ptrNow != nil && *ptrNow == end.Unix() // also true for an empty window ending at the old pointer
+	moved := !unchanged
+	if moved && !advanced {
 		m.fail(t, "pointer-wrong", "after %s: last_processed_time=%v, neither unchanged nor the end of this window", after, cq.LastProcessedTime)
 	}
 	completedRow := added != nil && added.Status == "completed"
@@ -563,7 +565,7 @@ func (s *c29Sys) afterFault(t c29TB, m *c29Model, step c29Step, fault string, ro
 			ex.Status = "failed"
 			m.execs = append(m.execs, ex)
 		}
-	case completedRow && moved:
+	case completedRow && advanced:
 		// it counts: then it must really have processed its window (checked again
 		// against the destination at the end of the history)
 		if !isErr {
@@ -582,13 +584,13 @@ func (s *c29Sys) afterFault(t c29TB, m *c29Model, step c29Step, fault string, ro
 		if explicit {
 			m.explicit = true
 		}
-	case !completedRow && !moved:
+	case !completedRow && unchanged:
 		if added != nil { // a `failed` record for the attempt is fine
 			ex.Status = added.Status
 			m.execs = append(m.execs, ex)
 		}
 		m.unrecorded = append(m.unrecorded, ex)
-	case completedRow && !moved:
+	case completedRow && !advanced:
 		m.fail(t, "record-without-advance", "after %s: window [%s, %s) is recorded as completed but last_processed_time did not advance to its end - the next run starts inside it (overlap, rows emitted twice)", after, c29Fmt(start.Unix()), c29Fmt(end.Unix()))
 	default:
 		m.fail(t, "advance-without-record", "after %s: last_processed_time advanced to %s but no completed execution is recorded for [%s, %s)", after, c29Fmt(end.Unix()), c29Fmt(start.Unix()), c29Fmt(end.Unix()))
